@@ -1056,10 +1056,12 @@ impl<'a> World<'a> {
                 if let Some(ledger) = self.ledgers.get(&rid) {
                     for kv in &d.kvs {
                         if kv.version > max_c && kv.status == 0 && kv.version <= gc_c {
-                            let later_delete = ledger
-                                .by_version
-                                .range(kv.version + 1..=gc_c)
-                                .any(|(_, w)| w.key == kv.key && w.status != 0);
+                            // (an empty interval when the set sits exactly at the watermark)
+                            let later_delete = kv.version < gc_c
+                                && ledger
+                                    .by_version
+                                    .range(kv.version + 1..=gc_c)
+                                    .any(|(_, w)| w.key == kv.key && w.status != 0);
                             let present = ns.get_versioned(&kv.key).map(|vv| vv.version == kv.version).unwrap_or(false);
                             if later_delete && present {
                                 self.taints.insert((dst, d.id.clone(), kv.key.clone(), kv.version));
@@ -1512,6 +1514,23 @@ impl<'a> World<'a> {
                 }
             }
         }
+        // "every advertised member (alive, or dead but not yet scheduled for deletion)": copies of
+        // members whose owner is gone converge too, to the most advanced copy still advertised.
+        let mut extra_rounds = 0;
+        loop {
+            let lag = self.lagging_dead_copies();
+            if lag.is_empty() {
+                break;
+            }
+            if extra_rounds >= bound {
+                return Err(fail(mon, "no-convergence-dead-member", format!("after {extra_rounds} more fair rounds on {n} nodes the copies of a member whose owner is gone, still advertised by a running node, have not converged: {}", lag.join("; "))).into());
+            }
+            extra_rounds += 1;
+            for (a, b) in pairs.clone() {
+                self.handshake(a, b)?;
+            }
+            tally.label("dead_member_copies_lagged_after_owner_convergence");
+        }
         tally.max("fair_rounds_needed", rounds as u64);
         tally.label(match rounds {
             0 => "rounds_0",
@@ -1585,6 +1604,55 @@ impl<'a> World<'a> {
             }
         }
         n
+    }
+
+    /// Copies of members whose owner is not running (crashed, or a former incarnation of a
+    /// restarted node) that lag behind the most advanced copy a running node still advertises
+    /// (holds and has not scheduled for deletion). A node that removed the member and remembers
+    /// it, or has itself scheduled it for deletion, is not expected to catch up.
+    fn lagging_dead_copies(&self) -> Vec<String> {
+        let running = self.running();
+        let running_ids: BTreeSet<ChitchatId> = running.iter().map(|s| self.nodes[*s].as_ref().unwrap().id.clone()).collect();
+        let mut members: BTreeSet<ChitchatId> = BTreeSet::new();
+        for s in &running {
+            for id in self.nodes[*s].as_ref().unwrap().chitchat.node_states().keys() {
+                if !running_ids.contains(id) {
+                    members.insert(id.clone());
+                }
+            }
+        }
+        let mut out = Vec::new();
+        for m in members {
+            for s in &running {
+                let c = &self.nodes[*s].as_ref().unwrap().chitchat;
+                if self.removed_hb.contains_key(&(*s, m.clone())) || c.scheduled_for_deletion_nodes().any(|i| *i == m) {
+                    continue;
+                }
+                // the most advanced copy advertised by a *direct neighbour* (a node that has dropped
+                // the member, or scheduled it, does not relay it)
+                let mut best: Option<(usize, u64)> = None;
+                for h in &running {
+                    if h == s || !self.links[*s][*h] || !self.links[*h][*s] {
+                        continue;
+                    }
+                    let hc = &self.nodes[*h].as_ref().unwrap().chitchat;
+                    if hc.scheduled_for_deletion_nodes().any(|i| *i == m) {
+                        continue;
+                    }
+                    if let Some(ns) = hc.node_state(&m) {
+                        if best.map_or(true, |b| ns.max_version() > b.1) {
+                            best = Some((*h, ns.max_version()));
+                        }
+                    }
+                }
+                let Some((h, best)) = best else { continue };
+                let have = c.node_state(&m).map(|ns| ns.max_version());
+                if have.map_or(true, |v| v < best) {
+                    out.push(format!("n{s} holds {}:{} at {:?}, its neighbour n{h} advertises it at {best}", m.node_id, m.generation_id, have));
+                }
+            }
+        }
+        out
     }
 
     fn lagging_detail(&self) -> String {
@@ -1786,7 +1854,8 @@ pub enum Profile {
 }
 
 fn val_small() -> impl Strategy<Value = Val> {
-    (0u16..5).prop_map(Val::tiny)
+    // "v0".."v4", and now and then the empty string (a legal value, also under a TTL)
+    prop_oneof![6 => (0u16..5).prop_map(Val::tiny), 1 => Just(Val { class: 1, len: 0, seed: 0 })]
 }
 
 fn val_large() -> impl Strategy<Value = Val> {
